@@ -13,7 +13,8 @@ import shutil
 import sys
 import traceback
 
-from .world import World, ROBOT, CONTRIB, ADMIN, PEER1, PEER2, classify  # noqa
+from .world import World, ROBOT, CONTRIB, ADMIN, PEER1, PEER2, classify, sh  # noqa
+from . import scripts
 
 
 def resolve_ref(w, step):
@@ -42,9 +43,38 @@ def integ_refs(w, p):
     return out
 
 
+MACROS = dict(hold_script=scripts.hold_script, foreign_script=scripts.foreign_script,
+              reset_script=scripts.reset_script, admin_script=scripts.admin_script,
+              events_script=scripts.events_script)
+
+
 def run_step(w, st, res):
     a = st['a']
-    fault = {}
+    if a in MACROS:
+        return MACROS[a](w, st, res)
+    if a == 'gate':
+        return scripts.gate(w, st['p'], res)
+    if a == 'gate2':
+        return scripts.gate(w, 2, res) if 2 in w.pmap and w.pr(w.pmap[2]).status == 'OPEN' else None
+    if a == 'finish_queue':
+        return scripts.finish_queue(w, res)
+    if a == 'rand_queue_status':
+        return scripts.rand_queue_status(w, st['seed'], st['sts'])
+    if a == 'decline_open':
+        for sym, rid in sorted(w.pmap.items()):
+            if w.pr(rid).status == 'OPEN':
+                w.decline(rid)
+        return None
+    if a == 'recover':
+        return recover(w, st, res)
+    if a == 'final_check':
+        if st.get('expect') is not None:
+            w.observe('check', chk=dict(kind='final', dt=dest_trees(w), ref=st['expect']))
+        return None
+    if 'p' in st and a != 'open_pr':
+        st = dict(st, p=w.pmap.get(st['p'], st['p']))
+    if isinstance(st.get('third'), dict) and 'p' in st['third']:
+        st = dict(st, third=dict(st['third'], p=w.pmap.get(st['third']['p'], st['third']['p'])))
     if 'crash_at' in st:
         w.crash_at = st['crash_at']
     if 'reject' in st:
@@ -64,8 +94,10 @@ def run_step(w, st, res):
         w.before_push = {t['at']: hook}
     try:
         if a == 'open_pr':
-            return w.open_pr(st['src'], st['dst'], user=st.get('u', CONTRIB), file=st.get('file'),
-                             base=st.get('base'))
+            rid = w.open_pr(st['src'], st['dst'], user=st.get('u', CONTRIB), file=st.get('file'),
+                            base=st.get('base'))
+            w.pmap[len(w.pmap) + 1] = rid
+            return rid
         if a == 'push_src':
             return w.push_src(st['p'], file=st.get('file'))
         if a == 'amend_src':
@@ -169,6 +201,36 @@ def run_step(w, st, res):
             w.reject_refs([])
 
 
+def dest_trees(w):
+    out = []
+    for n in sorted(w.refs()):
+        if classify(n)['kind'] in ('development', 'stabilization', 'hotfix'):
+            out.append([n, sh('git rev-parse %s^{tree}' % n, w.bare).strip()[:12]])
+    return out
+
+
+def recover(w, st, res):
+    """C02: after an interrupted job, re-deliver the event to a fresh Bert-E (after the documented
+    queue reset if it reports the queues out of order) and compare the destinations' content with
+    the uninterrupted run."""
+    w.fresh_berte()
+    sub = []
+    r = run_step(w, dict(st['step']), sub)
+    status = r['status'] if isinstance(r, dict) else None
+    reset = status in ('QueueOutOfOrder', 'IncoherentQueues')
+    if reset:
+        w.api_job('RebuildQueues')
+        w.drain()
+        r = run_step(w, dict(st['step']), sub)
+        status = r['status'] if isinstance(r, dict) else None
+    res.append(dict(step='recover', status=status))
+    # The re-delivered event is one more evaluation than the uninterrupted run had at this point and
+    # may legitimately be ahead of it (e.g. it evaluates the queue and merges an earlier pull request
+    # whose queue build is already green).  "Ends with the same content" is therefore judged at the
+    # end of the history (final_check), where both runs have delivered every event.
+    return r
+
+
 def _vs(d):
     return '.'.join(str(x) for x in d['ver'] if x != -1)
 
@@ -185,8 +247,11 @@ def run_scenario(scn, scratch, tid=0, keep=False):
                   settings=wc.get('settings'), cmd_line_options=wc.get('opts'))
         w.tid = tid
         w.observe('init')
+        out['dtrees'] = []
         for st in scn['steps']:
             run_step(w, st, out['results'])
+            if st['a'] in ('eval_pr', 'eval_commit', 'api', 'eval_child'):
+                out['dtrees'].append(dest_trees(w))
     except Exception:
         out['error'] = traceback.format_exc()
     finally:
